@@ -3,6 +3,6 @@ CONSTANTS CodeSets <- Singletons
           AlphaLen = 4
           Aligns = {0, 1, 7}
           Pushes = {1, 2, 7, 8, 9, 15, 16, 17, 24, 25, 31, 32}
-INVARIANTS BitmapRight CacheSound FrameSound AnswerRight CachedEqualsFresh EmitCase
+INVARIANTS BitmapRight ValidSetRight CacheSound FrameSound AnswerRight CachedEqualsFresh EmitCase
 VIEW View
 CHECK_DEADLOCK FALSE
